@@ -25,7 +25,7 @@ Fixpoint jfree_stmt (st : stmt) : bool :=
 with jfree_block (b : block) : bool :=
   match b with BNil => true | BCons st r => jfree_stmt st && jfree_block r end
 with jfree_blocks (h : blocks) : bool :=
-  match h with HNil => true | HCons b r => jfree_block b && jfree_blocks r end.
+  match h with HNil => true | HCons _ b r => jfree_block b && jfree_blocks r end.
 
 Fixpoint clean_cond (c : cond) : bool :=
   match c with CUser _ => true | CNot f => negb (ckind f) | CAndNot f c' => negb (ckind f) && clean_cond c' end.
@@ -41,11 +41,11 @@ Fixpoint clean_stmt (st : stmt) : bool :=
 with clean_block (b : block) : bool :=
   match b with BNil => true | BCons st r => clean_stmt st && clean_block r end
 with clean_blocks (h : blocks) : bool :=
-  match h with HNil => true | HCons b r => clean_block b && clean_blocks r end.
+  match h with HNil => true | HCons _ b r => clean_block b && clean_blocks r end.
 
 Lemma clean_hsel hs : forall n h, clean_blocks hs = true -> hsel hs n = Some h -> clean_block h = true.
 Proof.
-  induction hs as [|b r IH]; intros n h P E; simpl in *; [discriminate|].
+  induction hs as [|a b r IH]; intros n h P E; simpl in *; [discriminate|].
   apply andb_true_iff in P; destruct P as [Pb Pr]. destruct n; [injection E as <-; exact Pb | eapply IH; eassumption].
 Qed.
 
@@ -112,7 +112,7 @@ Proof.
     destruct (cont_stmt c k u st) as [[s' k1] u1] eqn:E1. destruct (cont_block c k1 (u || u1) u1 r) as [[r' k2] u2] eqn:E2.
     pose proof (IH1 c k u) as A. pose proof (IH2 c k1 (u || u1) u1) as B. rewrite E1 in A; rewrite E2 in B; simpl in *; lia.
   - intros c k u; simpl; lia.
-  - intros b IH1 r IH2 c k u; simpl.
+  - intros a b IH1 r IH2 c k u; simpl.
     destruct (cont_block c k u false b) as [[b' k1] u1] eqn:E1. destruct (cont_blocks c k1 (u || u1) r) as [[r' k2] u2] eqn:E2.
     pose proof (IH1 c k u false) as A. pose proof (IH2 c k1 (u || u1)) as B. rewrite E1 in A; rewrite E2 in B; simpl in *; lia.
 Qed.
@@ -156,7 +156,7 @@ Proof.
     pose proof (IH2 J2 c k1 (u || false) false) as B. destruct (cont_block c k1 (u || false) false r) as [[r' k2] h2]. simpl in B; subst h2.
     reflexivity.
   - intros _ c k u; reflexivity.
-  - intros b IH1 r IH2 J c k u. simpl in J. apply andb_true_iff in J; destruct J as [J1 J2]. simpl.
+  - intros a b IH1 r IH2 J c k u. simpl in J. apply andb_true_iff in J; destruct J as [J1 J2]. simpl.
     pose proof (IH1 J1 c k u false) as A. destruct (cont_block c k u false b) as [[b' k1] h1]. simpl in A; subst h1.
     pose proof (IH2 J2 c k1 (u || false)) as B. destruct (cont_blocks c k1 (u || false) r) as [[r' k2] h2]. simpl in B; subst h2.
     reflexivity.
@@ -167,7 +167,7 @@ Lemma cont_hsel hs : forall c k u n h, hsel hs n = Some h ->
   exists kk uu, k <= kk /\ hsel (fst (fst (cont_blocks c k u hs))) n = Some (fst (fst (cont_block c kk uu false h))) /\
                 (snd (cont_block c kk uu false h) = true -> snd (cont_blocks c k u hs) = true).
 Proof.
-  induction hs as [|b r IH]; intros c k u n h E; simpl in *; [discriminate|].
+  induction hs as [|a b r IH]; intros c k u n h E; simpl in *; [discriminate|].
   destruct (cont_block c k u false b) as [[b' k1] u1] eqn:E1. destruct (cont_blocks c k1 (u || u1) r) as [[r' k2] u2] eqn:E2.
   destruct n.
   - injection E as <-. exists k, u. rewrite E1. simpl. split; [lia|]. split; [reflexivity | intros ->; reflexivity].
@@ -178,9 +178,40 @@ Qed.
 
 Lemma cont_hsel_none hs : forall c k u n, hsel hs n = None -> hsel (fst (fst (cont_blocks c k u hs))) n = None.
 Proof.
-  induction hs as [|b r IH]; intros c k u n E; simpl in *; [reflexivity|].
+  induction hs as [|a b r IH]; intros c k u n E; simpl in *; [reflexivity|].
   destruct (cont_block c k u false b) as [[b' k1] u1] eqn:E1. destruct (cont_blocks c k1 (u || u1) r) as [[r' k2] u2] eqn:E2.
   destruct n; [discriminate|]. simpl. pose proof (IH c k1 (u || u1) n E) as X. rewrite E2 in X. exact X.
+Qed.
+
+Lemma cont_dispatch hs c k u d h d' : dispatch hs d = (Some h, d') ->
+  exists kk uu, k <= kk /\ dispatch (fst (fst (cont_blocks c k u hs))) d = (Some (fst (fst (cont_block c kk uu false h))), d') /\
+                (snd (cont_block c kk uu false h) = true -> snd (cont_blocks c k u hs) = true).
+Proof.
+  intros E. destruct hs as [|a b r]; [discriminate|]. destruct a.
+  - simpl in E. injection E as <- <-. exists k, u. simpl.
+    destruct (cont_block c k u false b) as [[b' k1] u1]. destruct (cont_blocks c k1 (u || u1) r) as [[r' k2] u2]. simpl.
+    split; [lia|]. split; [reflexivity | intros ->; reflexivity].
+  - assert (E' : hsel (HCons false b r) (dnat d) = Some h /\ d' = dtail d) by (simpl in E |- *; injection E as E1 E2; auto).
+    destruct E' as [E1 ->]. destruct (cont_hsel _ c k u _ _ E1) as [kk [uu [L [Hs Hu]]]]. exists kk, uu. split; [exact L|]. split; [|exact Hu].
+    simpl in Hs |- *. destruct (cont_block c k u false b) as [[b' k1] u1]. destruct (cont_blocks c k1 (u || u1) r) as [[r' k2] u2]. simpl in *.
+    rewrite Hs. reflexivity.
+Qed.
+
+Lemma cont_dispatch_none hs c k u d d' : dispatch hs d = (None, d') ->
+  dispatch (fst (fst (cont_blocks c k u hs))) d = (None, d').
+Proof.
+  intros E. destruct hs as [|a b r]; [exact E|]. destruct a; [discriminate|].
+  assert (E' : hsel (HCons false b r) (dnat d) = None /\ d' = dtail d) by (simpl in E |- *; injection E as E1 E2; auto).
+  destruct E' as [E1 ->]. pose proof (cont_hsel_none _ c k u _ E1) as Hs.
+  simpl in Hs |- *. destruct (cont_block c k u false b) as [[b' k1] u1]. destruct (cont_blocks c k1 (u || u1) r) as [[r' k2] u2]. simpl in *.
+  rewrite Hs. reflexivity.
+Qed.
+
+Lemma clean_dispatch hs d h d' : clean_blocks hs = true -> dispatch hs d = (Some h, d') -> clean_block h = true.
+Proof.
+  intros P E. destruct hs as [|a b r]; [discriminate|]. destruct a.
+  - simpl in E, P. injection E as <- _. apply andb_true_iff in P. apply P.
+  - apply (clean_hsel (HCons false b r) (dnat d)); [exact P|]. simpl in E |- *. injection E as E1 _. exact E1.
 Qed.
 
 Definition cpost (c : flag) (k : nat) (o : outcome) (hit : bool) (sl sl' : store) : Prop :=
@@ -271,8 +302,8 @@ Theorem cont_correct_all :
   (forall b s d tr o s' d', run_block b s d tr o s' d' -> cok_block b s d tr o s' d').
 Proof.
   apply run_mutind.
-  - (* atom *) intros l s d. split; [|intros; exact I]. intros _ c k u sl Oc Kc A _. exists sl. simpl.
-    split; [apply run_one; constructor|]. split; [exact A | apply cpost_refl; discriminate].
+  - (* atom *) intros l s d. split; [|intros; exact I]. intros _ c k u sl Oc Kc A _. exists sl. simpl. pose proof (RAtom l sl d) as R.
+    destruct (fst (atom_res l d)); simpl; (split; [apply run_one; exact R|]; split; [exact A | apply cpost_refl; discriminate]).
   - (* set *) intros f v s d. split; [|intros; exact I]. intros Cl c k u sl Oc Kc A _. simpl in Cl. apply negb_true_iff in Cl.
     exists (upd sl f v). simpl. split; [apply run_one; constructor|]. split; [apply agree_upd_clean, A|].
     assert (N : forall h, ckind h = true -> upd sl f v h = sl h) by (intros h Kh; apply upd_other; intros ->; congruence).
@@ -283,8 +314,8 @@ Proof.
     split; [apply run_one; constructor|]. split; [apply agree_upd_c; assumption|].
     split; [intros _; split; [apply upd_same | reflexivity]|]. split; [congruence|].
     intros h _ _ N. apply upd_other, N.
-  - (* return *) intros l s d. split; [|intros; exact I]. intros _ c k u sl Oc Kc A _. exists sl. simpl.
-    split; [apply run_one; constructor|]. split; [exact A | apply cpost_refl; discriminate].
+  - (* return *) intros l s d. split; [|intros; exact I]. intros _ c k u sl Oc Kc A _. exists sl. simpl. pose proof (RReturn l sl d) as R.
+    destruct (fst (atom_res l d)); simpl; (split; [apply run_one; exact R|]; split; [exact A | apply cpost_refl; discriminate]).
   - (* if *)
     intros t b1 b2 s d v tc d1 tr o s' d' Ec _ IH. split; [|intros; exact I]. intros Cl c k u sl Oc Kc A Pre.
     simpl in Cl. apply andb_true_iff in Cl; destruct Cl as [Cl C2]. apply andb_true_iff in Cl; destruct Cl as [Ct C1].
@@ -484,7 +515,7 @@ Proof.
       * intros E. destruct (P1 E) as [X ->]. split; [rewrite C3; exact X | reflexivity].
       * intros N. rewrite C3. apply P2, N.
   - (* try: body raises, no handler, finally *)
-    intros body hs orelse final s d tr1 s1 d1 tr3 s3 d3 _ IHb Eh _ IHf. split; [|intros; exact I].
+    intros body hs orelse final s d tr1 s1 d1 d1' tr3 s3 d3 _ IHb Eh _ IHf. split; [|intros; exact I].
     intros Cl c k u sl Oc Kc A Pre. simpl in Cl.
     apply andb_true_iff in Cl; destruct Cl as [Cl Jf]. apply andb_true_iff in Cl; destruct Cl as [Cl Cf].
     apply andb_true_iff in Cl; destruct Cl as [Cl Co]. apply andb_true_iff in Cl; destruct Cl as [Cb Ch].
@@ -497,7 +528,7 @@ Proof.
     pose proof (IHf Cf c k2 (u || h1 || h2) false) as IFN.
     pose proof (proj1 (proj2 jfree_nohit) final Jf c k2 (u || h1 || h2) false) as H3.
     destruct (cont_block c k2 (u || h1 || h2) false final) as [[final' k3] h3] eqn:E3.
-    pose proof (cont_hsel_none hs c k3 (u || h1 || h2 || h3) _ Eh) as Eh'.
+    pose proof (cont_dispatch_none hs c k3 (u || h1 || h2 || h3) _ _ Eh) as Eh'.
     destruct (cont_blocks c k3 (u || h1 || h2 || h3) hs) as [[hs' k4] h4] eqn:E4.
     simpl in *. subst h3.
     destruct IB as [sl1 [R1 [A1 [P1 [P2 P3]]]]]. { intros [H|H]; [discriminate|]. apply Pre. rewrite H; reflexivity. }
@@ -511,7 +542,7 @@ Proof.
     + split; [discriminate|]. split; [|exact HP].
       intros N. rewrite C3. apply P2, N.
   - (* try: body raises, handler runs, finally *)
-    intros body hs orelse final s d tr1 s1 d1 h tr2 oh s2 d2 tr3 s3 d3 _ IHb Eh _ IHh _ IHf. split; [|intros; exact I].
+    intros body hs orelse final s d tr1 s1 d1 d1' h tr2 oh s2 d2 tr3 s3 d3 _ IHb Eh _ IHh _ IHf. split; [|intros; exact I].
     intros Cl c k u sl Oc Kc A Pre. simpl in Cl.
     apply andb_true_iff in Cl; destruct Cl as [Cl Jf]. apply andb_true_iff in Cl; destruct Cl as [Cl Cf].
     apply andb_true_iff in Cl; destruct Cl as [Cl Co]. apply andb_true_iff in Cl; destruct Cl as [Cb Ch].
@@ -525,13 +556,13 @@ Proof.
     pose proof (proj1 (proj2 jfree_nohit) final Jf c k2 (u || h1 || h2) false) as H3.
     pose proof (proj1 (proj2 cont_mono3) final c k2 (u || h1 || h2) false) as L3.
     destruct (cont_block c k2 (u || h1 || h2) false final) as [[final' k3] h3] eqn:E3.
-    destruct (cont_hsel hs c k3 (u || h1 || h2 || h3) _ _ Eh) as [kk [uu [Lk [Eh' Hu]]]].
+    destruct (cont_dispatch hs c k3 (u || h1 || h2 || h3) _ _ _ Eh) as [kk [uu [Lk [Eh' Hu]]]].
     destruct (cont_blocks c k3 (u || h1 || h2 || h3) hs) as [[hs' k4] h4] eqn:E4.
     simpl in *. subst h3.
     destruct IB as [sl1 [R1 [A1 [P1 [P2 P3]]]]]. { intros [H|H]; [discriminate|]. apply Pre. rewrite H; reflexivity. }
     assert (C1 : sl1 c = sl c) by (apply P2; discriminate).
     assert (L0k : k <= kk) by lia.
-    destruct (IHh (clean_hsel _ _ _ Ch Eh) c kk uu false sl1 (outside_c_mono _ _ _ L0k Oc) Kc A1) as [sl2 [R2 [A2 [Q1 [Q2 Q3]]]]].
+    destruct (IHh (clean_dispatch _ _ _ _ Ch Eh) c kk uu false sl1 (outside_c_mono _ _ _ L0k Oc) Kc A1) as [sl2 [R2 [A2 [Q1 [Q2 Q3]]]]].
     { intros [H|H]; [discriminate|]. rewrite C1. apply Pre. rewrite (Hu H). rewrite ?orb_true_r; reflexivity. }
     assert (L02 : k <= k2) by lia.
     destruct (IFN sl2 (outside_c_mono _ _ _ L02 Oc) Kc A2) as [sl3 [R3 [A3 [F1 [F2 F3]]]]]. { intros [H|H]; discriminate. }
